@@ -159,8 +159,11 @@ PROPS = {
         rule=ALGO_RULE, trusted=ALGO_TRUST,
         level_text='Lean 4 theorems (by kernel evaluation) that the scoring constants, the per-scheme 128-entry class table and '
                    '7x7 bonus matrix regenerated from /repo on every run equal the documented values / the model, and that '
-                   'bonusFor obeys the documented rules for all class pairs and all scheme values. Scores are compared, per '
-                   'case, with refV2 (the recurrence evaluated over the whole line, no window, no slab, no fast path) and '
+                   'bonusFor obeys the documented rules for all class pairs and all scheme values; for every line, range and '
+                   'term, the scoring walk (calculateScore) on a range in which every position matches returns the documented '
+                   'score of that occurrence (a function of line and range only), prefix and suffix terms are scored as the '
+                   'occurrence they report, and an occurrence of m characters scores between 16m+4(m-1) and 16m+10(m+1). '
+                   'Scores are compared, per case, with refV2 (the recurrence evaluated over the whole line, no window, no slab, no fast path) and '
                    'with the documented alignment score of the reported occurrence.',
         level_note='Partial: score = refV2 for ALL inputs is not yet a Lean theorem (checked per case). Known findings: F11, F14.',
         technique='Lean 4 proof (regenerated tables by decide, bonus rules) + correspondence against a reference recurrence',
@@ -194,7 +197,9 @@ PROPS = {
                  'bytes.IndexByte', 'process-level piping through a real pipe is part of the C07 driver'],
         level_text='Lean 4 theorem for every OS-style read sequence (any number and sizes of reads, any cut positions): Reader.feed '
                    'hands over exactly splitRecords(stream); delivery is unobservable; splitRecords inverts "records each followed by '
-                   'the delimiter plus an optional unterminated tail" (empty records kept). Reader.feed is run on scripted readers '
+                   'the delimiter plus an optional unterminated tail" (empty records kept); under --tail N, after any history of '
+                   'pushes and trimming snapshots the next snapshot shows exactly the last N items pushed, under their original '
+                   'numbers. Reader.feed is run on scripted readers '
                    '(views compared with copies taken at push time), ChunkList push/snapshot(--tail)/PassMerger and --header-lines/'
                    '--tail filter runs are compared with the model and judged against "the last N records, numbered from the start".',
         level_note='Partial: slab-view stability and the chunk-list tail/index clauses are checked per case (views vs copies; '
@@ -235,7 +240,8 @@ PROPS = {
         level_text='Lean 4 theorems over the session model, for every history of action lists and every option set: the query cursor '
                    'stays inside the query, never more than --multi items are selected (none without --multi), after rendering the '
                    'list cursor designates an existing result or the list is empty; toggle is an involution below the limit; '
-                   'kill-line + yank restores the query; selections survive query changes. The action interpreter of the real '
+                   'kill-line + yank restores the query; selections survive query changes; with --track the cursor follows its '
+                   'item; excluded items stay out; while the input section is hidden no action changes the query. The action interpreter of the real '
                    'binary is compared step by step with the model.',
         level_note='Partial: --track, --no-input, offset-up/down/middle, jump and mouse actions, multi-line items are outside the '
                    'model; the readline refinement (word motions as a zipper) is checked per case. Fixed while building: F17.',
@@ -286,7 +292,8 @@ PROPS = {
                    'and line: a line that fits is shown complete; a truncated line never exceeds its room and consists of the '
                    'ellipsis and one contiguous slice of the line; pointer iff current, marker iff selected; the k-th result is on '
                    'the row the layout prescribes and header rows are disjoint from list rows; the prompt line starts with prompt + '
-                   'query and the info line carries the counters; repainting a row over its previous contents (erasing only as far '
+                   'query and the info line carries the counters; a hidden input section takes no rows (the list gets them); '
+                   'repainting a row over its previous contents (erasing only as far '
                    'as the previous text reached) equals a repaint from scratch, for every history of repaints. The screen of the '
                    'real binary is compared cell by cell with a from-scratch rendering of the model state after every step.',
         level_note='Partial: colours / highlights, borders, margins, preview pane, scrollbar, multi-line items, --wrap, --gap, '
@@ -369,7 +376,8 @@ PROPS = {
                  'compares what the server delivers with what --bind yields for the same text'],
         level_text='Lean 4 theorems about the request model: with a configured key an accepting answer (actions or state) implies '
                    'the x-api-key value equals the key; a rejection decided while scanning is final; an accepted POST hands over '
-                   'exactly the first Content-Length bytes and only if that many arrived; the content length is bounded by 1 MiB. '
+                   'exactly the first Content-Length bytes and only if that many arrived; the content length is bounded by 1 MiB; '
+                   'for every byte stream, text reaches the action interpreter only if the request line was not a GET. '
                    'handleHttpRequest is run over a pipe with scripted chunking and compared with the model (incl. the '
                    'chunk-dependent bufio.Scanner behaviour); delivered actions are compared with parseSingleActionList.',
         level_note='Fixed while building: F8 (GET answered before the API key was read). A non-local listener refusing to start '
